@@ -14,14 +14,18 @@ Decided (structural, all inputs; K0 = default build with the SSE2 engine, K6 = p
   xvariant   XChaCha/XSalsa: init(key, nonce[0..16]) -> rounds -> output_ad_bytes with no add_back,
              engine instantiated with the SAME ROUNDS, stream state = init(subkey, nonce[16..24]);
              the subkey words are 0-3,12-15 (ChaCha) / 0,5,10,15,6,7,8,9 (Salsa)
-Not decided: the quarter-round dataflow (which word feeds which)."""
+  block-eq   every piece of every engine (portable, SSE2, Salsa) equals the specification AS A FUNCTION, by value
+             graphs over symbolic inputs: init for every (key, nonce) length, rounds() for ROUNDS in {8,12,20}
+             (quarter-round dataflow, rotation amounts, diagonalisation), add_back, output_bytes, the HChaCha /
+             HSalsa word selection, set_counter, increment (32-bit wrap) and the 64-bit carry in both cases
+Not decided: how the cipher contexts compose the verified pieces beyond the call-order / wiring rules."""
 import re
 
 from .. import mir, pred, rules
 from ..mir import fmt, walk, const_val
 
 EXPLANATION = __doc__
-TECHNIQUE = "evaluated-constant tables vs. specification, const-generic sweep of guards, MIR wiring / call-order rules, rotation-constant census"
+TECHNIQUE = "value-graph equality (abstract interpretation of MIR in a hash-consed term domain with AC / parity normal forms) of each engine piece with the specification, evaluated-constant tables vs. specification, const-generic sweep of guards, MIR wiring / call-order rules, rotation-constant census"
 
 SIGMA = [int.from_bytes(b"expand 32-byte k"[4 * i:4 * i + 4], "little") for i in range(4)]
 TAU = [int.from_bytes(b"expand 16-byte k"[4 * i:4 * i + 4], "little") for i in range(4)]
@@ -463,4 +467,10 @@ def run(ctx):
         ctx.guard("round-count", "reference", lambda: check_round_loops(ctx, P6, "chacha::reference", [16, 12, 8, 7]))
         ctx.guard("hcore", "XChaCha/K6", lambda: check_xvariant(ctx, P6, "chacha20::XChaCha", "chacha::reference"))
     ctx.guard("hcore-words", "all", lambda: check_output_ad(ctx, P, P6))
-    ctx.not_decided += ["the quarter-round dataflow (which state word feeds which) in both ChaCha engines and Salsa", "numerical keystream values"]
+    # every piece of every engine's block function against the specification, as value graphs (cxsa/props/arx.py)
+    from . import arx
+    got = []
+    ctx.guard("block-eq", "engines", lambda: got.append(arx.check_engines(ctx, {"K0": P, "K6": P6} if P6 is not None else {"K0": P})))
+    want = 44 if P6 is not None else 28
+    ctx.check(got == [want], "floor", "block-eq", "%d engine pieces (3 engines x init / rounds / add_back / output / counter cases) compared with the specification" % want, "only %s engine pieces were compared with the specification (expected %d)" % (got, want), key="floor:block-eq")
+    ctx.not_decided += ["composition of the verified pieces into the keystream by the cipher contexts beyond the call-order / wiring rules (update: clone, rounds, add_back, output_bytes, increment)"]
